@@ -80,6 +80,15 @@ def Def.params : Def → List String | .mk _ p _ => p
 def Def.body : Def → Term | .mk _ _ b => b
 def Def.arity (d : Def) : Nat := d.params.length
 
+/-- does the name contain `::` (`name.split_once("::")` succeeds: a module-qualified call)?
+Written over the character list so that it evaluates in the kernel on literals. -/
+def hasModSep : List Char → Bool
+  | ':' :: ':' :: _ => true
+  | _ :: cs => hasModSep cs
+  | [] => false
+
+def isQualified (name : String) : Bool := hasModSep name.toList
+
 /-- a parameter / argument name denotes a variable iff it starts with `$` (`bind_from`) -/
 def isVarName (s : String) : Bool := s.front == '$'
 
